@@ -2,20 +2,30 @@ import TR.Model.Common
 /-!
 # Rate limiter (C02, C15) — `crates/tower-resilience-ratelimiter/src/{limiter,lib}.rs`
 
-Time is a `Nat` number of ticks. In the correspondence check one tick is one millisecond:
-every generated instant and duration is a whole number of milliseconds, the fixed window and the
-sliding log only add and subtract instants and durations, and the sliding counter's weighted test
-is written here in exact integer arithmetic (`prev·(B−e) + cur·B < L·B`), which does not depend on
-the unit. The only sub-millisecond quantity in the code is the sliding counter's float-valued wait
-estimate; it is not computed here but taken as an observed choice (see `noRoomAns`).
+Time is a `Nat` number of ticks (`Cfg.tickNs` nanoseconds each: one millisecond, or one microsecond
+for `tick=us` cases): every generated instant and duration is a whole number of ticks, the fixed
+window and the sliding log only add and subtract instants and durations.
+
+The sliding counter computes in `f64`. The model writes its two tests in exact integer arithmetic
+(`prev·(B−e) + cur·B < L·B`; `e / B ≥ 2`) and says precisely where the code's `f64` result may differ
+from the exact one (`TR.RateLimiter.approx_decides`, `approx_buckets` in `Lemmas/RateLimiterF64.lean`:
+any evaluation whose error is below `1/B` decides like the integer test unless the exact quantity is
+*on* the boundary): only there — weighted count exactly `L` part-way into a bucket, elapsed time exactly
+two buckets — the outcome is an **observed choice** (`Fx.adm`, `Fx.b1`) with the two neighbouring
+outcomes allowed. The wait estimate of `estimate_wait_time` is not computed either: its exact real value
+is the fraction `estFrac`, and what the code did with it (rejected / put to sleep / returned
+`Duration::ZERO`, which `acquire()` takes for a grant) is an observed choice constrained to what that
+value allows, **including ZERO** (`zeroOk`: the exact estimate is below one nanosecond).
 
 `room` is the part of `try_acquire` that rolls the window / prunes the log / rotates the bucket
 and takes a permit when there is one (one critical section under the limiter's mutex);
 `noRoomAns` is the rest of `try_acquire` (the wait computation, which changes nothing).
-`Ok(Duration::ZERO)` is "granted" in the code *and* what a zero wait would look like; the model
+`Ok(Duration::ZERO)` is "granted" in the code *and* what a zero wait looks like; the model
 keeps the two apart (`room … = true` versus `Ans.wait _ 0`) and the caller logic treats a zero
-wait as the code does (admission without a permit) — `TR.Props.C02.admit_iff_granted` shows it
-never happens for `limit ≥ 1`.
+wait as the code does (admission without a permit). `TR.Props.C02.admit_iff_granted` shows it
+never happens for `limit ≥ 1` on the fixed window and the sliding log, and on the sliding counter when
+`10 · limit ≤ period` in nanoseconds; `TR.Props.C02.zero_estimate_admits_without_permit` is the
+counterexample outside that range (the code does it too: `corpus/ratelimiter/c02-zero-estimate.ops`).
 
 One `poll` of one call future is one step. `acquire()` runs inside the boxed `async` block of
 `RateLimiter::call`, i.e. at the **first poll** of the returned future, and `sleep(wait)` is
@@ -32,7 +42,13 @@ service; and (b) every call of the wrapped service goes to an instance that has 
 away in the same manner (`Op.turnedAway`; an error is handed on as `RateLimiterServiceError::Inner`).
 
 Instants are unbounded naturals: the number of elapsed buckets of the sliding counter is the exact
-quotient `e / B` (the code's float division, cast to `u32`, saturates; only `≥ 2` is ever asked of it).
+quotient `e / B` (the code's float division, cast to `u32`, saturates; only `≥ 2` is ever asked of it),
+except at exactly two buckets, where the float quotient may come out just below 2 (`Fx.b1`).
+
+Ghost history kept in the state: `log` (every event), `tlog` (the same events with the instant at which
+they were emitted — what the driver prints as `t=…` and the correspondence check compares), `admits`
+(caller, instant of every inner call), `decided` (caller, arrival, decision instant of every admission /
+rate-limited rejection), and the limiter's `wins`, `grants`, `lastTry`.
 
 Second half of the file: the preset constructors' documented configurations, and `Fleet` — several
 services built from one layer value, each with a limiter of its own — which is what the line-protocol
@@ -51,7 +67,20 @@ structure Cfg where
   limit   : Nat       -- limit_for_period
   period  : Nat       -- refresh_period (window / bucket duration)
   timeout : Nat       -- timeout_duration
+  tickNs  : Nat := 1000000   -- nanoseconds per tick (only the sliding counter's zero-estimate test looks at it)
 deriving Repr
+
+/-- Observed choices of one poll besides `rej` / `woke` (absent = `false`).
+`adm`: this poll reached the wrapped service (`inner_call` was logged during it). The model uses it in two
+places only, both on the sliding counter when its exact test found no room: the weighted count is exactly
+`limit` part-way into a bucket (the `f64` comparison may say `<`: a permit is taken), or the wait estimate
+is below one nanosecond (`Duration::ZERO`: admitted without a permit).
+`b1`: the platform's `f64` quotient `(2·B).as_secs_f64() / B.as_secs_f64()`, cast to `u32`, is 1 (not 2) for the
+configured bucket `B`; it is used only when the elapsed time is exactly two buckets. -/
+structure Fx where
+  adm : Bool := false
+  b1  : Bool := false
+deriving DecidableEq, Repr
 
 /-- the limiter behind the mutex: the fields of the three window states, plus ghost history -/
 structure Lim where
@@ -111,35 +140,74 @@ def roomLog (cfg : Cfg) (l : Lim) (now : Nat) : Lim × Bool :=
 
 /-! ## sliding counter — `SlidingCounterState::try_acquire` -/
 
+/-- `buckets_passed >= 2`, where `buckets_passed = (elapsed / bucket) as u32` in `f64`: the exact quotient, except
+that at exactly two buckets the float quotient may be just below 2 (observed: `b1`) -/
+def twoBuckets (cfg : Cfg) (e : Nat) (b1 : Bool) : Bool :=
+  if e = 2 * cfg.period then !b1 else decide (e / cfg.period ≥ 2)
+
 /-- `maybe_rotate_bucket` -/
-def counterRoll (cfg : Cfg) (l : Lim) (now : Nat) : Lim :=
+def counterRoll (cfg : Cfg) (l : Lim) (now : Nat) (b1 : Bool) : Lim :=
   let e := now - l.start
   if e ≥ cfg.period then
-    openWin { l with prev := if e / cfg.period ≥ 2 then 0 else l.cur, cur := 0 } now
+    openWin { l with prev := if twoBuckets cfg e b1 then 0 else l.cur, cur := 0 } now
   else l
 
-/-- weighted count `prev·(1 − e/B) + cur < L`, multiplied through by `B` -/
-def roomCounter (cfg : Cfg) (l : Lim) (now : Nat) : Lim × Bool :=
-  let l := counterRoll cfg l now
+/-- `estimate_wait_time` in exact arithmetic, as a fraction `n / m` of a tick (`l` is the state after `room` found
+no permit, `e < B`): the rest of the bucket when the previous bucket is empty or the current one is full
+(`target_ratio ≥ 1`), else `(target_ratio − e/B)·B` with `target_ratio = (prev + cur − L + 0.1) / prev`, i.e.
+`((10·(prev + cur − L) + 1)·B − 10·prev·e) / (10·prev)`. It is positive (at least `B / (10·prev)`) and at most `B − e`. -/
+def estFrac (cfg : Cfg) (l : Lim) (now : Nat) : Nat × Nat :=
   let e := now - l.start
-  if l.prev * (cfg.period - e) + l.cur * cfg.period < cfg.limit * cfg.period then
+  if l.prev = 0 ∨ cfg.limit ≤ l.cur then (cfg.period - e, 1)
+  else ((10 * (l.prev + l.cur - cfg.limit) + 1) * cfg.period - 10 * l.prev * e, 10 * l.prev)
+
+/-- the code can return `Duration::ZERO` as the wait: the exact estimate is below one nanosecond
+(`Duration::from_secs_f64` rounds to the nearest nanosecond) -/
+def zeroOk (cfg : Cfg) (l : Lim) (now : Nat) : Bool :=
+  decide ((estFrac cfg l now).1 * cfg.tickNs < (estFrac cfg l now).2)
+
+/-- Situations in which every `f64` operation of the weighted count is exact (the documented dyadic-grid argument,
+`Lemmas/RateLimiterF64.lean`): the elapsed time is the bucket divided by 2, 4 or 8 (`fl(2ᵏ·x) = 2ᵏ·fl(x)`, so the
+ratio is exactly `2⁻ᵏ`), or the bucket is 1, 2 or 4 whole seconds and the elapsed time a multiple of 2⁻⁹ s
+(= 1 953 125 ns: `as_secs_f64` is exact on both, the ratio is `j / (512·S)`); the weight, the product with a small
+count and the sum are then exact as well. There the comparison is NOT a choice. -/
+def f64Exact (cfg : Cfg) (e : Nat) : Bool :=
+  decide (e * 2 = cfg.period ∨ e * 4 = cfg.period ∨ e * 8 = cfg.period) ||
+  (decide (cfg.period * cfg.tickNs = 1000000000 ∨ cfg.period * cfg.tickNs = 2000000000 ∨
+      cfg.period * cfg.tickNs = 4000000000) && decide ((e * cfg.tickNs) % 1953125 = 0))
+
+/-- the exact weighted count is exactly the limit, part-way into a bucket with a non-empty previous bucket, off the
+dyadic grid: the one situation in which the `f64` comparison `weighted_count < limit` may come out either way -/
+def onBoundary (cfg : Cfg) (l : Lim) (e : Nat) : Bool :=
+  decide (l.prev * (cfg.period - e) + l.cur * cfg.period = cfg.limit * cfg.period ∧ 0 < l.prev ∧ e ≠ 0) &&
+  !f64Exact cfg e
+
+/-- weighted count `prev·(1 − e/B) + cur < L`, multiplied through by `B`; on the boundary the `f64` result is the
+observed choice. (Should the wait estimate also be reportable as zero there — buckets of a few nanoseconds per call,
+off the dyadic grid: never generated — an observed admission is attributed to the comparison.) -/
+def roomCounter (cfg : Cfg) (l : Lim) (now : Nat) (fx : Fx) : Lim × Bool :=
+  let l := counterRoll cfg l now fx.b1
+  let e := now - l.start
+  if l.prev * (cfg.period - e) + l.cur * cfg.period < cfg.limit * cfg.period ∨ (onBoundary cfg l e ∧ fx.adm) then
     (grant { l with cur := l.cur + 1 } now, true)
   else (l, false)
 
 /-- the state-changing part of one `try_acquire` at `now`; `true` = a permit was taken -/
-def room (cfg : Cfg) (l : Lim) (now : Nat) : Lim × Bool :=
+def room (cfg : Cfg) (l : Lim) (now : Nat) (fx : Fx := {}) : Lim × Bool :=
   let r := match cfg.kind with
     | .fixed => roomFixed cfg l now
     | .slog => roomLog cfg l now
-    | .counter => roomCounter cfg l now
+    | .counter => roomCounter cfg l now fx
   ({ r.1 with lastTry := now }, r.2)
 
 /-- The wait computation of `try_acquire` after `room` found no permit (`l` is the state after
-`room`). Fixed and log: exact. Counter: the estimate `est` is float-valued; what the code
-guarantees is `0 < est ≤ B − e` (time left in the bucket), a rejection iff `est > timeout`, and a
-sleep of `est` rounded up to the timer granularity otherwise. The observed choice `rej` says
-which of the two happened; it is allowed iff some `est` in that range explains it. -/
-def noRoomAns (cfg : Cfg) (l : Lim) (now : Nat) (rej : Bool) : Ans :=
+`room`). Fixed and log: exact. Counter: the estimate `est` is float-valued; its exact value is
+`estFrac = n/m` ticks, `0 < n/m ≤ B − e`. The code rejects iff `est > timeout`, returns `Ok(est)` otherwise —
+a sleep of `est` rounded up to the timer granularity, or, when `est` rounds to zero nanoseconds,
+`Ok(Duration::ZERO)`, which `acquire()` takes for a grant. The observed choices say which of the three
+happened (`fx.adm`: the poll reached the wrapped service; `rej`: rejected at once / put to sleep); each is
+allowed iff the exact estimate, give or take one tick for the float evaluation, explains it. -/
+def noRoomAns (cfg : Cfg) (l : Lim) (now : Nat) (rej : Bool) (fx : Fx := {}) : Ans :=
   match cfg.kind with
   | .fixed =>
       let d := cfg.period - (now - l.start)
@@ -152,8 +220,11 @@ def noRoomAns (cfg : Cfg) (l : Lim) (now : Nat) (rej : Bool) : Ans :=
           if d > cfg.timeout then .reject else .wait d d
   | .counter =>
       let rem := cfg.period - (now - l.start)
-      if rej then (if cfg.timeout < rem then .reject else .bad)
-      else (if 1 ≤ min cfg.timeout rem then .wait 1 (min cfg.timeout rem) else .bad)
+      let n := (estFrac cfg l now).1
+      let m := (estFrac cfg l now).2
+      if fx.adm then (if zeroOk cfg l now then .wait 0 0 else .bad)
+      else if rej then (if cfg.timeout < rem ∧ cfg.timeout * m < n + m then .reject else .bad)
+      else (if 1 ≤ min cfg.timeout rem ∧ n ≤ cfg.timeout * m + m then .wait 1 (min cfg.timeout rem) else .bad)
 
 /-! ## callers — `SharedRateLimiter::acquire` and `RateLimiter::call` -/
 
@@ -175,18 +246,21 @@ structure State where
   busyUntil : Nat := 0                 -- the wrapped service answers `Pending` to `poll_ready` before this instant
   admits  : List (Nat × Nat) := []     -- ghost: (caller, instant) of every inner call, in order
   log     : List Ev := []              -- ghost: every event so far
+  tlog    : List (Nat × Ev) := []      -- ghost: every event so far with the instant it was emitted at (the `t=` of its line)
+  decided : List (Nat × Nat × Nat) := []  -- ghost: (caller, arrival, instant) of every admission / rate-limited rejection
 deriving Repr
 
 inductive Op
   | arrive (c : Nat) (sc : Step)
-  | poll (c : Nat) (rej woke : Bool)   -- with the implementation's observed choices
+  | poll (c : Nat) (rej woke : Bool) (fx : Fx := {})   -- with the implementation's observed choices
   | drop (c : Nat)
   | adv (ms : Nat)
   | busy (ms : Nat)                    -- the wrapped service is not ready for the next `ms` ticks
   | turnedAway (c : Nat) (err : Bool)  -- an arrival whose `poll_ready` answered `Pending` (scripted) / `Err(Inner(e))`
 deriving Repr
 
-def emit (s : State) (evs : List Ev) : State := { s with log := s.log ++ evs }
+def emit (s : State) (evs : List Ev) : State :=
+  { s with log := s.log ++ evs, tlog := s.tlog ++ evs.map fun e => (s.now, e) }
 def setPh (s : State) (c : Nat) (p : Phase) : State := { s with phase := (c, p) :: s.phase }
 def phaseOf (s : State) (c : Nat) : Option Phase := lookup s.phase c
 
@@ -195,7 +269,8 @@ def startInner (s : State) (c arr : Nat) : State :=
   let lat := match lookup s.script c with | some sc => sc.lat | none => 0
   emit { setPh s c (.running arr) with
            doneAt := (c, s.now + lat) :: s.doneAt, kOf := (c, s.serial) :: s.kOf,
-           serial := s.serial + 1, admits := s.admits ++ [(c, s.now)] }
+           serial := s.serial + 1, admits := s.admits ++ [(c, s.now)],
+           decided := s.decided ++ [(c, arr, s.now)] }
        [.innerCall c s.serial]
 
 def outcomeEvents (c k : Nat) : Out → List Ev
@@ -214,8 +289,9 @@ def pollRunning (s : State) (c : Nat) : State :=
 /-- no yield between `acquire()` returning `Ok` and the first poll of the inner future -/
 def admitCall (s : State) (c arr : Nat) : State := pollRunning (startInner s c arr) c
 
-/-- `Err(RateLimiterServiceError::RateLimited)` -/
-def rejectCall (s : State) (c : Nat) : State := emit (setPh s c (.done false)) [.result c .rateLimited]
+/-- `Err(RateLimiterServiceError::RateLimited)`; `arr` = the caller's arrival (first poll) -/
+def rejectCall (s : State) (c arr : Nat) : State :=
+  emit { setPh s c (.done false) with decided := s.decided ++ [(c, arr, s.now)] } [.result c .rateLimited]
 
 /-- `poll_ready` of the wrapped service is pending when the caller arrives: no call is made -/
 def notReadyCall (s : State) (c : Nat) : State := emit (setPh s c (.done false)) [.result c .notReady]
@@ -227,12 +303,12 @@ def readyErrEv (c : Nat) : Ev := .raw s!"ready_err {c} inner9:0"
 def badChoice (s : State) : State := emit s [.raw "choice-not-allowed"]
 
 /-- first poll: the first `try_acquire` -/
-def pollFresh (cfg : Cfg) (s : State) (c : Nat) (rej : Bool) : State :=
-  let r := room cfg s.lim s.now
+def pollFresh (cfg : Cfg) (s : State) (c : Nat) (rej : Bool) (fx : Fx := {}) : State :=
+  let r := room cfg s.lim s.now fx
   let s := { s with lim := r.1 }
   if r.2 then admitCall s c s.now
-  else match noRoomAns cfg r.1 s.now rej with
-    | .reject => rejectCall s c
+  else match noRoomAns cfg r.1 s.now rej fx with
+    | .reject => rejectCall s c s.now
     | .wait lo hi =>
         if hi = 0 then admitCall s c s.now       -- `Ok(Duration::ZERO)` without a permit
         else setPh s c (.sleeping s.now (s.now + lo) (s.now + hi))
@@ -244,17 +320,17 @@ def zeroWait : Ans → Bool
   | _ => false
 
 /-- after the sleep: the second `try_acquire`; only `Ok(ZERO)` admits, anything else rejects -/
-def secondTry (cfg : Cfg) (s : State) (c arr : Nat) : State :=
-  let r := room cfg s.lim s.now
+def secondTry (cfg : Cfg) (s : State) (c arr : Nat) (fx : Fx := {}) : State :=
+  let r := room cfg s.lim s.now fx
   let s := { s with lim := r.1 }
   if r.2 then admitCall s c arr
-  else if zeroWait (noRoomAns cfg r.1 s.now true) then admitCall s c arr
-  else rejectCall s c
+  else if zeroWait (noRoomAns cfg r.1 s.now true fx) then admitCall s c arr
+  else rejectCall s c arr
 
 /-- poll of a sleeping caller; `woke` = the sleep timer has fired (observed) -/
-def pollSleeping (cfg : Cfg) (s : State) (c arr lo hi : Nat) (woke : Bool) : State :=
+def pollSleeping (cfg : Cfg) (s : State) (c arr lo hi : Nat) (woke : Bool) (fx : Fx := {}) : State :=
   if (woke = true ∧ s.now < lo) ∨ (woke = false ∧ hi ≤ s.now) then badChoice s
-  else if woke then secondTry cfg s c arr
+  else if woke then secondTry cfg s c arr fx
   else s
 
 def dropCaller (s : State) (c : Nat) : State :=
@@ -276,10 +352,10 @@ def stepS (cfg : Cfg) (s : State) (op : Op) : State :=
       -- `poll_ready` (forwarded to the wrapped service) did not answer `Ready(Ok)`: the caller makes no call
       if (phaseOf s c).isSome then s
       else notReadyCall (if err then emit s [readyErrEv c] else s) c
-  | .poll c rej woke =>
+  | .poll c rej woke fx =>
       match phaseOf s c with
-      | some .fresh => pollFresh cfg s c rej
-      | some (.sleeping arr lo hi) => pollSleeping cfg s c arr lo hi woke
+      | some .fresh => pollFresh cfg s c rej fx
+      | some (.sleeping arr lo hi) => pollSleeping cfg s c arr lo hi woke fx
       | some (.running _) => pollRunning s c
       | _ => s
   | .drop c => dropCaller s c
@@ -302,7 +378,8 @@ def burst (rate b : Nat) : Cfg := { kind := .counter, limit := rate + b, period 
 /-- `RateLimiterConfigBuilder::new()` / `::default()`: 50 per second, 100 ms timeout, fixed window -/
 def builderDefaults : Cfg := { kind := .fixed, limit := 50, period := 1000, timeout := 100 }
 
-def scale (u : Nat) (c : Cfg) : Cfg := { c with period := c.period * u, timeout := c.timeout * u }
+def scale (u : Nat) (c : Cfg) : Cfg :=
+  { c with period := c.period * u, timeout := c.timeout * u, tickNs := c.tickNs / u }
 
 /-! ## several services built from one layer value — `layer.rs:137-143`, `lib.rs:251-290`
 
@@ -330,7 +407,7 @@ deriving Repr
 
 inductive FOp
   | arrive (k c : Nat) (sc : Step)        -- caller c calls (a handle of) service k; the service is built if need be
-  | poll (c : Nat) (rej woke : Bool)
+  | poll (c : Nat) (rej woke : Bool) (fx : Fx := {})
   | drop (c : Nat)
   | adv (ms : Nat)
   | busy (ms : Nat)
@@ -390,9 +467,9 @@ def fstep (cfg : Cfg) (f : Fleet) : FOp → Fleet × List Ev
           | 'p' :: rest => onInst cfg { f with rscript := rest } k (.turnedAway c false)
           | 'e' :: rest => onInst cfg { f with rscript := rest } k (.turnedAway c true)
           | _ :: rest => onInst cfg { f with rscript := rest } k (.arrive c sc)
-  | .poll c rej woke =>
+  | .poll c rej woke fx =>
       match lookup f.owner c with
-      | some k => onInst cfg f k (.poll c rej woke)
+      | some k => onInst cfg f k (.poll c rej woke fx)
       | none => (f, [])
   | .drop c =>
       match lookup f.owner c with
@@ -410,7 +487,7 @@ def ftrace (cfg : Cfg) (ops : List FOp) : List Ev :=
 /-- the service an operation is addressed to -/
 def target (f : Fleet) : FOp → Option Nat
   | .arrive k _ _ => some k
-  | .poll c _ _ => lookup f.owner c
+  | .poll c _ _ _ => lookup f.owner c
   | .drop c => lookup f.owner c
   | _ => none
 
@@ -428,7 +505,7 @@ def parseOp (ws : List String) : Option Op :=
       some (.arrive (c.toNat?.getD 0) (plan.headD { lat := 0, out := .ok }))
   | "poll" :: c :: rest =>
       let kv := parseKv rest
-      some (.poll (c.toNat?.getD 0) (flag kv "@rej") (flag kv "@woke"))
+      some (.poll (c.toNat?.getD 0) (flag kv "@rej") (flag kv "@woke") { adm := flag kv "@adm", b1 := flag kv "@b1" })
   | "drop" :: c :: _ => some (.drop (c.toNat?.getD 0))
   | "adv" :: ms :: _ => some (.adv (ms.toNat?.getD 0))
   | "manual" :: "busy" :: rest => some (.busy ((parseKv rest).nat "ms" 0))
@@ -445,7 +522,7 @@ def parseFOp (ws : List String) : Option FOp :=
   | "manual" :: "ready" :: rest => some (.ready ((parseKv rest).str "script" "").toList)
   | _ =>
       match parseOp ws with
-      | some (.poll c rej woke) => some (.poll c rej woke)
+      | some (.poll c rej woke fx) => some (.poll c rej woke fx)
       | some (.drop c) => some (.drop c)
       | some (.adv ms) => some (.adv ms)
       | some (.busy ms) => some (.busy ms)
@@ -474,7 +551,7 @@ def cfgOf (kv : Kv) : Cfg :=
     else { kind := .fixed, limit := 1, period := 1000, timeout := 0 }
   { kind := match kv.get "kind" with | some k => parseKind k | none => base.kind,
     limit := kv.nat "limit" base.limit, period := kv.nat "period" base.period,
-    timeout := kv.nat "timeout" base.timeout }
+    timeout := kv.nat "timeout" base.timeout, tickNs := 1000000 / u }
 
 def machine : Machine where
   σ := Cfg × Fleet
